@@ -29,9 +29,13 @@ def gen_stack(ch, max_components=4):
                       'async_suffix': bool(ch.draw(2, 'suffix'))})
     nh = ch.draw(4, 'n_hooks')
     hooks = [ch.choice(['before', 'after'], 'hook') for _ in range(nh)]   # outermost first
+    tgt = ch.draw(6, 'target')
     return {'components': comps, 'hooks': hooks,
             'independent': bool(ch.draw(2, 'independent')),
-            'routed': ch.draw(5, 'routed') != 4}
+            'routed': tgt < 4,
+            'sink': tgt == 5,                                  # unrouted path served by a sink
+            'split': ch.draw(n + 1, 'mw_split') if n else 0,   # components [split:] are added via add_middleware()
+            'class_hooks': bool(ch.draw(3, 'class_hooks') == 2)}
 
 
 class Stack(object):
@@ -148,6 +152,7 @@ class Stack(object):
                 st._perform('responder', req, resp)
         fn = on_get
         hooks = plan['hooks']
+        class_level = []
         for idx in range(len(hooks) - 1, -1, -1):
             kind = hooks[idx]
             site = 'hook%d.%s' % (idx, kind)
@@ -164,7 +169,10 @@ class Stack(object):
                             st.lane(req)[0].append(site)
                             st._perform(site, req, resp)
                         return action
-                fn = falcon.before(mk(site))(fn)
+                if plan.get('class_hooks') and idx == 0:
+                    class_level.append(falcon.before(mk(site)))
+                else:
+                    fn = falcon.before(mk(site))(fn)
             else:
                 if self.asgi:
                     def mk(site):
@@ -178,15 +186,40 @@ class Stack(object):
                             st.lane(req)[0].append(site)
                             st._perform(site, req, resp)
                         return action
-                fn = falcon.after(mk(site))(fn)
+                if plan.get('class_hooks') and idx == 0:
+                    class_level.append(falcon.after(mk(site)))
+                else:
+                    fn = falcon.after(mk(site))(fn)
         Res = type('Res', (object,), {'on_get': fn})
+        for deco in class_level:      # the outermost hook is applied to the resource class
+            Res = deco(Res)
         self.resource = Res()
         cls = falcon.asgi.App if self.asgi else falcon.App
         kw = {}
         if response_type is not None:
             kw['response_type'] = response_type
-        app = cls(middleware=comps, independent_middleware=plan['independent'], **kw)
+        split = plan.get('split', len(comps))
+        if comps and 0 < split < len(comps) + 1 and split != len(comps):
+            app = cls(middleware=comps[:split], independent_middleware=plan['independent'], **kw)
+            app.add_middleware(comps[split:])
+        elif comps and split == 0:
+            app = cls(independent_middleware=plan['independent'], **kw)
+            app.add_middleware(comps)
+        else:
+            app = cls(middleware=comps, independent_middleware=plan['independent'], **kw)
         app.add_route('/r/{p}', self.resource)
+        if plan.get('sink'):
+            if self.asgi:
+                async def sink(req, resp, **kw):
+                    st.lane(req)[0].append('sink')
+                    if st.pause:
+                        await st.pause()
+                    st._perform('sink', req, resp)
+            else:
+                def sink(req, resp, **kw):
+                    st.lane(req)[0].append('sink')
+                    st._perform('sink', req, resp)
+            app.add_sink(sink, '/sink')
         if extra_setup:
             extra_setup(app, self)
         return app
